@@ -33,7 +33,8 @@ import batotal
 STREAM = "typed-e2e"
 B, unB, L, unL = fsgen.B, fsgen.unB, fsgen.L, fsgen.unL
 
-SJIS_NAMES = [s.encode("cp932") for s in ["a", "tex0", "MID_A", "Tex_Body.001", "ﾃｸｽﾁｬ", "テクスチャ", "表示", "あいう", "ソ", "lab", "x" * 20]]
+SJIS_NAMES = [s.encode("cp932") for s in ["a", "tex0", "MID_A", "Tex_Body.001", "ﾃｸｽﾁｬ", "テクスチャ", "表示", "あいう", "ソ", "lab", "x" * 20,
+                                         "αβ", "亜", "一", "ー"]]   # the last four: Shift-JIS byte order differs from String order (big-endian label tables)
 UTF8_NAMES = [s.encode("utf-8") for s in ["a", "tex0", "Tex_Body.001", "été", "日本語テクスチャ", "body", "αβ"]]
 FMT3DS = [0, 2, 3, 4, 5, 7, 8, 12, 13]
 TR_KINDS = {"arc": 0, "pack": 1, "tpl": 2, "bch": 3, "ctpk": 4, "cgfx": 5}
@@ -154,6 +155,14 @@ def pool():
             items += [_rand_bin(rng, e) for _ in range(8)]
             for f in ("S", "U"):
                 items += [_rand_text(rng, f, e) for _ in range(5)]
+        # big-endian images whose label names sort differently as Shift-JIS bytes and as Strings (the library orders the
+        # label table by the decoded names: 83 BF = U+03B1 before 82 A0 = U+3042, 88 EA = U+4E00 before 88 9F = U+4E9C)
+        a_, al_, k1_, k2_, pr_ = (bytes.fromhex(x) for x in ("82a0", "83bf", "889f", "88ea", "815b"))
+        items.append(Img("bin", txtfile.bin_write("B", bytes(12), {}, {}, [(0, a_), (4, al_), (8, k1_), (8, k2_), (12, pr_)]), endian="B"))
+        items.append(Img("bin", txtfile.bin_write("B", bytes(range(8)), {}, {4: 0}, [(8, k1_), (0, k2_)]), endian="B"))
+        for f in ("S", "U"):
+            ents = [(a_, [0x41] if f == "U" else [0x41]), (al_, []), (k1_, [0x42]), (k2_, [0x43, 0x44])]
+            items.append(Img("text", text_file(f, "B", b"t", ents, None), endian="B", fmt=f, expect=(b"t", ents)))
         items += [_rand_pack(rng) for _ in range(8)]
         items += [_rand_arc(rng) for _ in range(8)]
         for k in ("ctpk", "bch", "cgfx", "tpl"):
@@ -206,7 +215,8 @@ def render(c, base):
 
 
 def parse(line):
-    t = line.split()
+    import namekeys
+    t = namekeys.strip_toks(line.split())
     assert t[0] == "typedfs"
     base, game, lang, nl = t[1], int(t[2]), int(t[3]), int(t[4])
     i = 5
@@ -330,7 +340,7 @@ def gen_case(rng, game, lang):
 
 
 def gen_cases(rng, tier):
-    n = 1500 if tier == "quick" else 12000
+    n = 1000 if tier == "quick" else 12000      # quick trimmed from 1500 (wall time of ./check C12 under load)
     out = []
     combos = [(g, l) for g in fsgen.SUPPORTED for l in range(8)]
     for i in range(n):
